@@ -10,6 +10,8 @@ import (
 	"fmt"
 	"os"
 	"path/filepath"
+	"runtime/debug"
+	"runtime/pprof"
 	"sort"
 	"strconv"
 	"strings"
@@ -127,6 +129,7 @@ func fatal(code int, f string, a ...interface{}) {
 var cleanups []func()
 
 func exit(code int) {
+	pprof.StopCPUProfile()
 	for _, f := range cleanups {
 		f()
 	}
@@ -146,6 +149,9 @@ func parseParams(s string) map[string]int {
 }
 
 func main() {
+	if os.Getenv("GOGC") == "" {
+		debug.SetGCPercent(400) // the interpreter allocates many short-lived small values; trade memory for fewer collections
+	}
 	interp.RepoRoot = repoRoot
 	if len(os.Args) < 2 {
 		fatal(2, "usage: gosx run|check|replay ...")
@@ -177,7 +183,13 @@ func cmdRun(args []string) {
 	params := fs.String("p", "", "K=V,K=V harness parameters")
 	replayV := fs.Bool("replay", false, "replay violations natively")
 	budget := fs.Duration("budget", 0, "wall clock budget")
+	cpuprof := fs.String("cpuprofile", "", "write a CPU profile")
 	fs.Parse(args)
+	if *cpuprof != "" {
+		f, _ := os.Create(*cpuprof)
+		pprof.StartCPUProfile(f)
+		defer pprof.StopCPUProfile()
+	}
 	ld := load()
 	fn := ld.hp.Func(*fnName)
 	if fn == nil {
